@@ -62,7 +62,8 @@ fn case(srv: &mut Srv, seed: u64, res: &mut CaseResult) -> R<()> {
     let ctx_a = srv.new_context()?;
     let ctxs = [ZERO_CONTEXT, ctx_a];
     // prefix-related names: a lifecycle frame of one must never be taken for a lifecycle frame of another
-    let names = ["h", "hx", "h.sub"];
+    // ... and one name that contains a lifecycle word itself
+    let names = ["h", "hx", "h.sub", "n.registered.x"];
     // race forcing: delay the handler task before it subscribes
     let delay_ms = [0u64, 0, 5, 20][rng.below(4)];
     if delay_ms > 0 {
@@ -75,7 +76,7 @@ fn case(srv: &mut Srv, seed: u64, res: &mut CaseResult) -> R<()> {
     let mut active: BTreeMap<(usize, usize), bool> = BTreeMap::new();
     for ev in 0..n_events {
         let ci = rng.below(2);
-        let ni = rng.below(3);
+        let ni = rng.below(4);
         let ctx = ctxs[ci];
         let name = names[ni];
         let is_active = *active.get(&(ci, ni)).unwrap_or(&false);
@@ -115,7 +116,7 @@ fn case(srv: &mut Srv, seed: u64, res: &mut CaseResult) -> R<()> {
             "fail" => {
                 srv.must_append("fail", ctx, None, None, None)?;
                 // every handler of that context fails on it
-                for n2 in 0..3 {
+                for n2 in 0..4 {
                     active.insert((ci, n2), false);
                 }
             }
@@ -163,7 +164,7 @@ fn check(srv: &Srv, res: &mut CaseResult, events: &[String], delay_ms: u64) {
     let mut groups: BTreeMap<(Scru128Id, String), Vec<&Frame>> = BTreeMap::new();
     for f in &log {
         if let Some((name, suffix)) = f.topic.rsplit_once('.') {
-            if matches!(suffix, "register" | "registered" | "unregister" | "unregistered" | "out") && (name.starts_with('h') || name == "canary") {
+            if matches!(suffix, "register" | "registered" | "unregister" | "unregistered" | "out") && matches!(name, "h" | "hx" | "h.sub" | "n.registered.x" | "canary") {
                 groups.entry((f.context_id, name.to_string())).or_default().push(f);
             }
         }
